@@ -72,6 +72,11 @@ class EvoWorld(World):
             # progress reporting re-installs the integrator's step callback
             # on every update_to (drawn last: earlier knobs keep their values)
             "progbar": r.random() < 0.25,
+            # argument forms: memory layout / sparse format / eigenpair order of
+            # the Hamiltonian, container of p0, type of the time argument
+            "hvar": r.randrange(4),
+            "pvar": r.randrange(3),
+            "tvar": r.randrange(3),
         }
 
     # ------------------------------------------------------------------ setup
@@ -123,12 +128,25 @@ class EvoWorld(World):
         kn = self.knobs
         hk = kn["hkind"]
         H = self.H0
+        hv = kn.get("hvar", 0)
         if hk == "dense":
+            if hv == 1:
+                return np.asfortranarray(H)  # plain ndarray, column-major
+            if hv == 2:
+                return qu.qarray(np.ascontiguousarray(H.T).T)  # non-contiguous view
+            if hv == 3:
+                return np.array(H)
             return qu.qarray(H)
         if hk == "sparse":
-            return sp.csr_matrix(H)
+            return [sp.csr_matrix, sp.csc_matrix, sp.coo_matrix, sp.bsr_matrix][hv](H)
         if hk == "tuple":
             evals, evecs = np.linalg.eigh(H)
+            if hv in (1, 3):
+                # any eigen-decomposition will do: unsorted pairs
+                perm = data_rng(kn["seed"] + 17).permutation(len(evals))
+                evals, evecs = evals[perm], evecs[:, perm]
+            if hv >= 2:
+                return (evals, np.array(evecs))
             return (evals, qu.qarray(evecs))
         if hk == "linop":
             return spla.aslinearoperator(H)
@@ -136,6 +154,10 @@ class EvoWorld(World):
             if not hasattr(qu, "Lazy"):
                 return qu.qarray(H)
             return qu.Lazy(lambda: qu.qarray(H), shape=H.shape)
+        if hv == 1:
+            return lambda t: sp.csr_matrix(self._H(t))
+        if hv == 2:
+            return lambda t: np.asfortranarray(self._H(t))
         return lambda t: qu.qarray(self._H(t))
 
     def _build(self):
@@ -175,7 +197,13 @@ class EvoWorld(World):
                     return -1
                 return 0
             kw["int_stop"] = int_stop
-        p0 = qu.qarray(self.p0)
+        pv = kn.get("pvar", 0)
+        if pv == 1:
+            p0 = np.array(self.p0)
+        elif pv == 2 and not self.isdop:
+            p0 = np.array(self.p0).reshape(-1)  # 1-D array for a ket
+        else:
+            p0 = qu.qarray(self.p0)
         self._unpatch = None
         if kn.get("progbar"):
             # the terminal is the seam: the real tqdm-based bars run, silenced
@@ -192,7 +220,19 @@ class EvoWorld(World):
 
             self._unpatch = unpatch
             self.stats.probe("progbar_runs")
-        st, evo = self.call(lambda: qu.Evolution(p0, self._ham_arg(), t0=self.t0, progbar=bool(kn.get("progbar")), **kw))
+        plain = (kn["hkind"] in ("dense", "callable") and kn.get("hvar", 0) in (1, 2, 3)) or kn.get("pvar", 0) or \
+            (kn["hkind"] == "tuple" and kn.get("hvar", 0) >= 2) or (kn["hkind"] == "sparse" and kn.get("hvar", 0))
+        try:
+            st, evo = self.call(lambda: qu.Evolution(p0, self._ham_arg(), t0=self.t0, progbar=bool(kn.get("progbar")), **kw))
+        except Violation as v:
+            # a container quimb does not treat as an operator (plain ndarray,
+            # other sparse formats) may be refused - with whatever exception -
+            # at construction: refusal is within the property
+            if plain and v.cls.startswith("C18/internal:"):
+                st, evo = "rejected", v
+                self.stats.probe("plain_container_refused:" + kn["method"] + ":" + kn["hkind"])
+            else:
+                raise
         if st == "rejected":
             self.stats.outcome("combination_rejected")
             self.stats.probe(f"rejected:{kn['method']}:{kn['state']}:{kn['hkind']}")
@@ -280,7 +320,9 @@ class EvoWorld(World):
         if op.get("stop_after") and self.knobs["int_stop"] and self.knobs["method"].startswith("integrate"):
             self.stop_at = self.accepted_steps + op["stop_after"]
         n_seen = len(self.seen)
-        st, res = self.call(lambda: evo.update_to(t))
+        tv = self.knobs.get("tvar", 0)
+        targ = np.float64(t) if tv == 1 else (np.asarray(t) if tv == 2 else t)
+        st, res = self.call(lambda: evo.update_to(targ))
         if st == "rejected":
             raise Violation("C18/rejected_valid_input", f"update_to({t}): {res!r}")
         cancelled = self.stop_at is None and op.get("stop_after") and self.knobs["int_stop"] \
